@@ -129,6 +129,7 @@ class SysRun(object):
         self.ref_mode = False
         self.ref_calls = []
         self.shared_pool = False
+        self.sink = None
 
     # -- gates -------------------------------------------------------------------
     def gate_wait(self, name):
@@ -221,10 +222,34 @@ class SysRun(object):
             return table[method](**params)
         return table[method](*params)
 
+    BUILTINS = {"max": max, "len": len, "str": str, "sorted": sorted, "divmod": divmod, "format": "{}-{}".format, "int": int,
+                "abs": abs, "sum": sum, "repr": repr}
+
     def register_all(self, disp):
         self.direct_table = {}
+        self.sink = getattr(self, "sink", None)
         for name in sorted(self.p.get("methods", {})):
-            f = self.make_method(name, self.p["methods"][name])
+            spec = self.p["methods"][name]
+            if spec["kind"] == "builtin":
+                # C-implemented callables have no Python frame (and often no introspectable signature)
+                f = self.BUILTINS[spec["builtin"]]
+                self.direct_table[name] = f
+                disp.register_function(f, name)
+                continue
+            if spec["kind"] == "sink":
+                # a bound method of a C type: what it was given is observed afterwards
+                import collections
+
+                if self.ref_mode:
+                    f = collections.deque().append
+                else:
+                    if self.sink is None:
+                        self.sink = collections.deque()
+                    f = self.sink.append
+                self.direct_table[name] = f
+                disp.register_function(f, name)
+                continue
+            f = self.make_method(name, spec)
             self.direct_table[name] = f
             if self.p["server"].get("custom_dispatch") == "instance":
                 continue
@@ -280,10 +305,7 @@ class SysRun(object):
             if unix and sv.get("abstract"):
                 addr = "\0sim-abstract"  # Linux abstract-namespace address
             fam = socket.AF_UNIX if unix else socket.AF_INET
-            class Quiet(js.SimpleJSONRPCRequestHandler):
-                def log_message(self, format, *args):
-                    pass  # http.server writes protocol errors to stderr: keep the check's output clean
-
+            Quiet = quiet_handler(js)
             handler = Quiet
             cd = sv.get("custom_dispatch")
             if cd in ("server", "direct", True):
@@ -296,6 +318,7 @@ class SysRun(object):
                         return run.server._dispatch(method, params)
 
                 handler = Handler
+            self.handler_class = handler
             if sv["kind"] == "plain":
                 self.server = js.SimpleJSONRPCServer(addr, requestHandler=handler, logRequests=False, address_family=fam, config=cfg)
             else:
@@ -555,6 +578,9 @@ class SysRun(object):
 
         self.default_before = snapshot_config(cfgmod.DEFAULT)
         self.build_server()
+        if p.get("second_server") == "early":
+            # a server on the other kind of listener, alive for the whole run
+            self.early_second = self.other_family_server()
         self.cfg_before = snapshot_config(self.cfg)
         srv = self.server
         life = p.get("lifecycle", "serve")
@@ -601,7 +627,7 @@ class SysRun(object):
             if self.shared_pool:
                 # notifications still queued in the shared pool would be discarded by server_close(): let them run first
                 s.emit("shared.joined", bool(self.user_pool.join(FAR)))
-            if is_net and p.get("second_server") and life == "serve":
+            if is_net and p.get("second_server") is True and life == "serve":
                 # another server of the same class in the same process, closed without ever serving, while this one serves
                 self.second_server()
             if is_net:
@@ -615,6 +641,10 @@ class SysRun(object):
         # drain the pools the harness owns
         if self.npool is not None:
             self.npool_drain()
+        if getattr(self, "early_second", None) is not None:
+            self.lifecycle_op("server_close", self.early_second.server_close)
+        if self.sink is not None:
+            s.emit("sink", list(self.sink))
         if is_net:
             s.emit("listener.fileno", srv.socket.fileno())
             if serve_thread is not None:
@@ -627,13 +657,26 @@ class SysRun(object):
         # reference replies: the same request texts on a fresh dispatcher, one at a time
         self.reference()
 
+    def other_family_server(self):
+        import socket
+
+        js = self.js
+        sv = self.p["server"]
+        if sv["kind"] == "dispatcher":
+            return None
+        cls = js.SimpleJSONRPCServer if sv["kind"] == "plain" else js.PooledJSONRPCServer
+        self.s.probe("server_of_other_family_alive")
+        if sv.get("family") == "unix":
+            return cls(("sim", 0), requestHandler=self.handler_class, logRequests=False, address_family=socket.AF_INET, config=self.config())
+        return cls("/sim/other", requestHandler=self.handler_class, logRequests=False, address_family=socket.AF_UNIX, config=self.config())
+
     def second_server(self):
         import socket
 
         js = self.js
         sv = self.p["server"]
         cls = js.SimpleJSONRPCServer if sv["kind"] == "plain" else js.PooledJSONRPCServer
-        other = cls(("sim", 0), logRequests=False, address_family=socket.AF_INET, config=self.config())
+        other = cls(("sim", 0), requestHandler=self.handler_class, logRequests=False, address_family=socket.AF_INET, config=self.config())
         self.s.probe("second_server_closed_while_first_serves")
         self.lifecycle_op("server_close", other.server_close)
         self.s.emit("second.fileno", other.socket.fileno())
@@ -688,18 +731,53 @@ class SysRun(object):
         s.emit("reference.done", len(self.ref))
 
 
+_QUIET = {}
+
+
+def quiet_handler(js):
+    """One request handler class for every simulated server (as users pass the same class to all their servers)."""
+    if "cls" not in _QUIET:
+        class Quiet(js.SimpleJSONRPCRequestHandler):
+            def log_message(self, format, *args):
+                pass  # http.server writes protocol errors to stderr: keep the check's output clean
+
+        _QUIET["cls"] = Quiet
+    return _QUIET["cls"]
+
+
 def is_real_server(obj):
     return hasattr(obj, "serve_forever")
 
 
+CONFIG_FIELDS = ("version", "content_type", "user_agent", "use_jsonclass", "serialize_method", "ignore_attribute")
+
+
+def _stable(x):
+    """An address-free description of a class / function / value."""
+    if isinstance(x, type):
+        return "class:%s.%s" % (x.__module__, x.__qualname__)
+    if callable(x):
+        return "callable:%s" % getattr(x, "__qualname__", type(x).__name__)
+    return repr(x)
+
+
 def snapshot_config(cfg):
-    """Field-by-field picture of a Config (containers copied)."""
+    """Picture of a Config through its public attributes only (its internal representation is free to change)."""
     out = {}
-    for k, v in sorted(vars(cfg).items()):
-        if isinstance(v, dict):
-            out[k] = sorted((repr(a), repr(b)) for a, b in v.items())
-        else:
-            out[k] = repr(v)
+    for k in CONFIG_FIELDS:
+        out[k] = _stable(getattr(cfg, k, "<missing>"))
+    for k in ("classes", "serialize_handlers"):
+        d = getattr(cfg, k, None)
+        out[k] = sorted((_stable(a), _stable(b), id(b)) for a, b in d.items()) if d is not None else None
+    return out
+
+
+def describe_snapshot(snap):
+    """The same without object identities (for messages and logs)."""
+    out = dict(snap)
+    for k in ("classes", "serialize_handlers"):
+        if out.get(k) is not None:
+            out[k] = [(a, b) for a, b, _ in out[k]]
     return out
 
 
